@@ -433,7 +433,7 @@ before `let notar_stake = {`
             && pre.wf_pend(Pending::Notar(v))
             && (pre.votes.notar@[v] matches Some(x) && x.block_hash == *block_hash);
         proof { pre.lemma_room_for_pending(Pending::Notar(pv)); }
-after `self.voted_stakes.top_notar = notar_stake.max(self.voted_stakes.top_notar);`
+before `if !self.sent_safe_to_notar.contains(block_hash) {`
         proof {
             Self::lemma_wf_after_count(&pre, &*self, Pending::Notar(pv));
             self.lemma_counted_is_stored();
